@@ -527,3 +527,93 @@ def inplace_dtype_rule(repo: Repo, prop: str, rule_id: str, floor: int = 6) -> R
             )
     r.require(seen >= floor, f"only {seen} in-place stores into array attributes found")
     return r
+
+
+# ---------------------------------------------------------------------------------------------------------------------
+def inplace_on_view_rule(repo: Repo, prop: str, rule_id: str, module_prefixes, floor: int = 2) -> RuleRun:
+    """A query must not change what it queries. Methods like ``discretize()`` / ``point_array`` hand out VIEWS of the object's own
+    coordinate array (a slice, ``np.asarray`` of it, or the attribute itself); an in-place operation on such a value (``v -= p``,
+    ``v[i] = ...``, ``out=v``) writes into the object. Every local that is bound to a view-returning call on ``self`` or to a slice
+    of a ``self`` array, and is then updated in place, is reported."""
+    r = RuleRun(prop, rule_id, floor=floor, what="no in-place update of a value that is a view of the object's own coordinate array (obtained from a view-returning method or a slice of an attribute)")
+
+    def is_view_expr(e: ast.expr, selfname: str) -> bool:
+        while isinstance(e, ast.Subscript):
+            e = e.value
+        if isinstance(e, ast.Call) and (attr_chain(e.func) or "").split(".")[-1] in ("asarray", "asanyarray", "squeeze", "reshape", "ravel", "transpose") and e.args:
+            return is_view_expr(e.args[0], selfname)
+        ch = attr_chain(e) or ""
+        return ch.startswith(selfname + ".") and ch.split(".")[-1] in ("points", "position", "positions", "array", "point_array")
+
+    view_funcs = set()
+    for fn in repo.all_functions():
+        if fn.cls is None or not fn.params:
+            continue
+        selfname = fn.params[0]
+        locals_view = set()
+        for n in walk_shallow(fn.node):
+            if isinstance(n, ast.Assign) and len(n.targets) == 1 and isinstance(n.targets[0], ast.Name) and is_view_expr(n.value, selfname):
+                locals_view.add(n.targets[0].id)
+        for n in walk_shallow(fn.node):
+            if isinstance(n, ast.Return) and n.value is not None:
+                v = n.value
+                if is_view_expr(v, selfname) or (isinstance(v, ast.Name) and v.id in locals_view):
+                    view_funcs.add(fn.qualname)
+    for fn in sorted(repo.all_functions(), key=lambda f: f.qualname):
+        short = fn.module.name[len("classy_blocks.") :] if fn.module.name.startswith("classy_blocks.") else fn.module.name
+        if fn.cls is None or not fn.params or not any(short.startswith(p) for p in module_prefixes):
+            continue
+        selfname = fn.params[0]
+        env = None
+        views = {}
+        for n in walk_shallow(fn.node):
+            if isinstance(n, ast.Assign) and len(n.targets) == 1 and isinstance(n.targets[0], ast.Name):
+                v = n.value
+                src = None
+                if is_view_expr(v, selfname):
+                    src = ast.unparse(v)[:40]
+                elif isinstance(v, ast.Call) and isinstance(v.func, ast.Attribute):
+                    if env is None:
+                        env = TypeEnv(repo, fn)
+                    callees, _ = env.resolve_call(v)
+                    if callees and any(c.qualname in view_funcs for c in callees):
+                        src = ast.unparse(v)[:40]
+                elif isinstance(v, ast.Attribute) and isinstance(v.value, ast.Name) and v.value.id == selfname:
+                    m_ = repo.find_method(fn.cls, v.attr)
+                    if m_ is not None and m_.is_property and m_.qualname in view_funcs:
+                        src = ast.unparse(v)[:40]
+                if src is not None:
+                    views[n.targets[0].id] = (n, src)
+        if not views:
+            continue
+        for name, (st, src) in sorted(views.items()):
+            writes = []
+            for n in walk_shallow(fn.node):
+                if isinstance(n, ast.AugAssign):
+                    t = n.target
+                    while isinstance(t, ast.Subscript):
+                        t = t.value
+                    if isinstance(t, ast.Name) and t.id == name and n.lineno > st.lineno:
+                        writes.append(n)
+                elif isinstance(n, ast.Assign):
+                    for t in n.targets:
+                        if isinstance(t, ast.Subscript):
+                            b = t
+                            while isinstance(b, ast.Subscript):
+                                b = b.value
+                            if isinstance(b, ast.Name) and b.id == name and n.lineno > st.lineno:
+                                writes.append(n)
+                elif isinstance(n, ast.Call):
+                    for k in n.keywords:
+                        if k.arg == "out" and isinstance(k.value, ast.Name) and k.value.id == name:
+                            writes.append(n)
+            r.check(
+                not writes,
+                fn,
+                f"'{name} = {src}' (a view of the object's array) is only read",
+                f"{fn.qualname} binds '{name}' to {src} - a view of the object's own coordinate array - and then updates it in place ('{ast.unparse(writes[0])[:50] if writes else ''}'): the query moves the object it queries "
+                "(every later query, get_point, discretize and edge built on it sees displaced coordinates)",
+                writes[0] if writes else st,
+                key=f"view:{name}",
+            )
+    return r
